@@ -475,3 +475,46 @@ def r12_1(ctx):
                    "the child's score is from the opponent's point of view: it must flow into exactly one negation before any use (negations: %d, other uses: %s)" % (
                        len(negs), [b.where(u) for u in others]))
     ctx.floor("recursive search calls", ncalls, 7)
+
+
+def r12_5(ctx):
+    """Speculative (null-move) pruning only at remaining depth >= 3, only when allowed, and never
+    while in check; the null-move search is a zero-window search with reduced depth."""
+    f = ctx.facts
+    b = f.body(ABS)
+    ctx.note_fn(ABS)
+    ex = Exprs(b)
+    bp = one_param(b, "&board::BoardState")
+    boolp = params_by_type(b, "bool")
+    depthp = params_by_type(b, "u8")
+    n = 0
+    for bb, t in sorted(b.iter_calls(callee=ABS)):
+        args = ex.call_args(bb)
+        board_arg = strip_refs(args[bp - 1])
+        # the null move: searched position is a clone of this node's board with the side flipped
+        if not (board_arg[0] == "var" and b.local_ty(board_arg[1]) == "board::BoardState"):
+            continue
+        n += 1
+        facts_ = dominating_facts(b, ex, bb)
+        ok_allow = ok_depth = ok_check = False
+        dmin = None
+        for d, vals, excl, s, tg in facts_:
+            truth = True if ((vals is None and excl == [0]) or vals == [1]) else (False if vals == [0] else None)
+            if truth is None:
+                continue
+            if d[0] in ("arg", "var") and d[1] in boolp and truth:
+                ok_allow = True
+            if d[0] == "bin" and d[1] in ("Ge", "Gt") and truth and d[3][0] == "const" and root_local(d[2]) in depthp:
+                k = d[3][1] + (1 if d[1] == "Gt" else 0)
+                dmin = k
+                ok_depth = k >= 3
+            if d[0] == "call" and d[1] == IS_CHECK and truth is False:
+                own = strip_refs(d[2][0]) == ("arg", bp) and strip_refs(d[2][1]) == ("field", ("deref", ("arg", bp)), "to_move")
+                ok_check = ok_check or own
+        loc = b.term_loc(bb)
+        ctx.ob("alpha_beta_search:null-move:only-when-allowed", ok_allow, b.where(loc), "null move is tried only when the caller allows it (no two null moves in a row)")
+        ctx.ob("alpha_beta_search:null-move:depth>=3", ok_depth, b.where(loc),
+               "null move is tried only at remaining depth >= 3 (guard found: depth >= %s): shallower iterations must stay exact" % dmin)
+        ctx.ob("alpha_beta_search:null-move:not-in-check", ok_check, b.where(loc),
+               "null move is tried only when the side to move is not in check (passing while in check is illegal: a mated node would be scored by its material)")
+    ctx.floor("null-move searches", n, 1)
